@@ -441,7 +441,7 @@ func runtimeErr(msg string) error { return runtimeErrT{msg} }
 
 func symShift(op token.Token, k types.BasicKind, x, y value) value {
 	if X.IntMode {
-		unsupported("shift in int mode")
+		return symShiftInt(op, k, x, y)
 	}
 	yk, _ := dynKind(y)
 	w := kindWidth(k)
@@ -623,4 +623,46 @@ func equalsV(t types.Type, x, y value) value {
 		return symStringBinop(token.EQL, x, y)
 	}
 	return symEqualsScalar(x, y)
+}
+
+
+// symShiftInt: shifts on mathematical integers (Int mode): x << c = wrap(x * 2^c), x >> c = floor(x / 2^c).
+func symShiftInt(op token.Token, k types.BasicKind, x, y value) value {
+	w, sg := kindWidth(k), kindSigned(k)
+	a := termOf(x, k)
+	one := func(c int) *smt.Term {
+		if c >= w {
+			if op == token.SHL || !sg {
+				return smt.IntConst64(0)
+			}
+			return smt.Ite(smt.ILt(a, smt.IntConst64(0)), smt.IntConst64(-1), smt.IntConst64(0))
+		}
+		p := smt.IntConst(new(big.Int).Lsh(big.NewInt(1), uint(c)))
+		if op == token.SHL {
+			return smt.IWrap(smt.IMul(a, p), w, sg)
+		}
+		return smt.IDivE(a, p) // euclidean division by a positive constant is the floor
+	}
+	if !isSym(y) {
+		c := asInt64(y)
+		if c < 0 {
+			panic(runtimeErr("negative shift amount"))
+		}
+		if c > int64(w) {
+			c = int64(w)
+		}
+		return mkSym(k, one(int(c)))
+	}
+	yk, _ := dynKind(y)
+	s := termOf(y, yk)
+	if kindSigned(yk) {
+		if X.Guard(smt.ILt(s, smt.IntConst64(0))) {
+			panic(runtimeErr("negative shift amount"))
+		}
+	}
+	r := one(w)
+	for c := w - 1; c >= 0; c-- {
+		r = smt.Ite(smt.Eq(s, smt.IntConst64(int64(c))), one(c), r)
+	}
+	return mkSym(k, r)
 }
